@@ -60,7 +60,7 @@ def cli_argv(o, target):
     if o.get("mutators"):
         a += ["--mutators"] + list(o["mutators"])
     if o.get("rate") is not None:
-        a += ["--mutation-rate", repr(o["rate"])]
+        a += ["--mutation-rate", o.get("rate_text") or repr(o["rate"])]
     if o.get("unsafe"):
         a += ["--unsafe-mutations"]
     if o.get("ext"):
@@ -91,7 +91,7 @@ def action_env(o, sep, out_file=None, out_dir=None, samples=None, truth="true", 
     if o.get("mutators"):
         e["INPUT_MUTATORS"] = sep.join(o["mutators"])
     if o.get("rate") is not None:
-        e["INPUT_MUTATION_RATE"] = repr(o["rate"])
+        e["INPUT_MUTATION_RATE"] = o.get("rate_text") or repr(o["rate"])
     e["INPUT_UNSAFE_MUTATIONS"] = truth if o.get("unsafe") else falsy
     e["INPUT_ALLOW_EXT"] = truth if o.get("ext") else falsy
     e["INPUT_ALLOW_BUFFER"] = truth if o.get("buf") else falsy
@@ -148,6 +148,10 @@ def option_matrix(rng, n_random):
         out.append(mk(seed=s))                      # protocol = seed % 6
         out.append(mk(seed=s, buf=True))            # ... and the opt-in flags apply to the derived protocol
         out.append(mk(seed=s + 12, ext=True, buf=True))
+    # the extreme rates in every spelling a workflow file produces (mutation_rate: 0 arrives as "0")
+    for rtxt, r in (("0", 0.0), ("0.", 0.0), ("0.0", 0.0), (".0", 0.0), ("1", 1.0), ("1.", 1.0), ("1.00", 1.0), (".5", 0.5), ("0.50", 0.5)):
+        out.append(mk(protocol=2, seed=31, mutators=["boundary", "bitflip", "offbyone", "stringlen", "character"], rate=r, rate_text=rtxt))
+        out.append(mk(seed=33, mutators=["all"], rate=r, rate_text=rtxt))
     for ptxt, p in (("05", 5), ("+5", 5), ("02", 2)):
         out.append(mk(protocol=p, protocol_text=ptxt, seed=7, ext=True, buf=True))
     out.append(mk(seed=2 ** 63 + 5))
